@@ -239,6 +239,10 @@ def c05(ctx, replay):
     # ... and the scenario with cancelled contexts (incl. a context the application cancels between two chunks of an open message
     # while a second writer is queued behind the message lock)
     core.refine_validate(ctx, 200 if ctx.quick() else 1500, only=SIG_REFINE, kind="ctx")
+    # Close takes over the read side while the application's reader is parked on the read lock, and lets go of the lock before the
+    # connection is closed (window stretched by a hook gate): the reader fails, or returns bytes of ITS message (fixed: 03b1726)
+    rep = ctx.drive("closetake", ["-n", 15 if ctx.quick() else 150], timeout=1200)
+    ctx.absorb(rep)
     conc_campaign(ctx, 300 if ctx.quick() else 4000, SIG_C05)
     repo_tests_traced(ctx, SIG_C05 - {"data-frame-by-non-owner-of-message"})
     race_campaign(ctx, 150 if ctx.quick() else 1500)
